@@ -82,3 +82,26 @@ package oxia
 //@ requires 0 <= i && i < len(h) && 0 <= j && j < len(h) && h[i] != nil && h[j] != nil
 //@ ensures res <==> compare.CompareWithSlash(bytes(h[i].gr.Key), bytes(h[j].gr.Key)) < 0
 //@ modifies nothing
+
+// ---------------------------------------------------------------- multi-shard comparison get (C20)
+
+//@ func toGetResult
+//@ trusted
+//@ modifies nothing
+//@ note trusted: builds the client-side result value from a response or an error
+
+// The per-shard callback of a comparison get that fans out to every shard. The shared
+// state is (counter, result channel): counter is the number of shard answers still
+// awaited and is 0 exactly when the operation has been completed (one result sent, the
+// channel closed). Every invocation keeps that relation — so the operation completes
+// exactly once, whatever mix of answers and errors the shards give and in whatever order:
+// nothing is sent on, and nothing closes, a channel that is already closed.
+//
+//@ func clientImpl.doMultiShardGet$1
+//@ property C20
+//@ chanstate
+//@ requires ch != nil && options != nil && keyNotFound != nil && selected != nil
+//@ requires counter >= 0 && (ghost(closed, ch) == 0 || ghost(closed, ch) == 1) && ((counter == 0) <==> ghost(closed, ch) == 1)
+//@ ensures counter >= 0 && (ghost(closed, ch) == 0 || ghost(closed, ch) == 1) && ((counter == 0) <==> ghost(closed, ch) == 1)
+//@ ensures selected != nil
+//@ modifies *
